@@ -87,16 +87,28 @@ def _extreme_helper(ctx) -> None:
     V, P = ("param", f.params[0]), ("param", f.params[1])
     rets = [e for e in it.events if e.kind == "return" and e.depth == 0]
     probs = []
-    plain = [e for e in rets if e.term == ("call", P, (V,), ())]
-    if not plain:
+    def alts(t):
+        """alternatives of a returned value: a value bound in the try body or in its handler and returned once is their merge"""
+        if t[0] == "phi":
+            return [x for y in t[1] for x in alts(y)]
+        if t[0] == "ifexp":
+            return alts(t[2]) + alts(t[3])
+        return [t]
+    in_handler = lambda e: any(pol and c[0] == "call" and c[1] == ("name", "<except>") and c[2] and c[2][0] == ("name", "TypeError")
+                               for c, pol in e.conds)
+    leaves_ = [(e, lf) for e in rets for lf in alts(e.term)]
+    plain_t = ("call", P, (V,), ())
+    if not any(lf == plain_t for _, lf in leaves_):
         probs.append("no `return pick(values)`")
-    for e in rets:
-        if e in plain:
+    for e, lf in leaves_:
+        if lf == plain_t:
             continue
-        in_handler = any(pol and c[0] == "call" and c[1] == ("name", "<except>") and c[2] and c[2][0] == ("name", "TypeError") for c, pol in e.conds)
-        ok = e.term[0] == "call" and e.term[1] == P and e.term[2] == (V,) and kw(e.term, "key") == ("name", "_at_midnight") and len(e.term[3]) == 1
-        if not (in_handler and ok):
-            probs.append(f"`return {show(e.term, it)[:50]}` is neither pick(values) nor, in the TypeError handler, pick(values, key=_at_midnight)")
+        ok = lf[0] == "call" and lf[1] == P and lf[2] == (V,) and kw(lf, "key") == ("name", "_at_midnight") and len(lf[3]) == 1
+        # the keyed form is computed only in the handler of a TypeError (the call event itself, wherever its value is returned)
+        calls = [c for c in it.events if c.kind == "call" and c.term == lf]
+        handled = (in_handler(e) and not calls) or (bool(calls) and all(in_handler(c) for c in calls))
+        if not (ok and handled):
+            probs.append(f"`return {show(lf, it)[:50]}` is neither pick(values) nor, in the TypeError handler, pick(values, key=_at_midnight)")
     if it.falls_through:
         probs.append("can fall off its end (returning None for a non-empty group)")
     ctx.ob("c.aggregators", f, "extreme-helper", not probs, "_extreme(values, pick) is pick(values), dates widened to midnight on a TypeError",
